@@ -27,7 +27,7 @@ def texts(outs):
     return {name: {k: v.decode('utf-8', 'replace') for k, v in o['files'].items()} for name, o in outs.items() if 'files' in o}
 
 
-def generate(specs, whitelist, root, sub):
+def generate(specs, whitelist, root, sub, args_override=None):
     kw = {}
     if whitelist is not None:
         kw['route_whitelist_filter'] = whitelist
@@ -35,7 +35,7 @@ def generate(specs, whitelist, root, sub):
     if out.kind != 'ok':
         return {'compile': out.brief()}, {}
     os.environ['VERIF_SCRATCH'] = root
-    o = impl.backend_outputs(out.api)
+    o = impl.backend_outputs(out.api, args_override=args_override)
     return digest(o), texts(o)
 
 
@@ -49,13 +49,15 @@ def main():
     keep_text = job.get('keep_text')
     if job['history'] == 'after-unrelated':
         generate(job['unrelated'], None, root, 'u')
-    d, t = generate(job['specs'], job.get('whitelist'), root, 'a')
+    if job['history'] == 'after-other-options':
+        generate(job['specs'], job.get('whitelist'), root, 'o', job.get('pre_args'))
+    d, t = generate(job['specs'], job.get('whitelist'), root, 'a', job.get('args'))
     runs.append(d)
     if job['history'] == 'twice':
         deeper = os.path.join(root, 'a-much-longer-output-directory-name', 'nested')
         os.makedirs(deeper, exist_ok=True)
         ex._scratch_root = deeper
-        d2, _ = generate(job['specs'], job.get('whitelist'), deeper, 'b')
+        d2, _ = generate(job['specs'], job.get('whitelist'), deeper, 'b', job.get('args'))
         runs.append(d2)
     out = {'runs': runs}
     if keep_text:
